@@ -85,6 +85,9 @@ def as_bytes(engine, v):
     if isinstance(v, Agg) and len(v.fields) == 1:
         # newtype around bytes (CommitHash, Uuid, ...)
         return as_bytes(engine, v.fields[0].v)
+    if isinstance(v, Opaque) and isinstance(v.payload, Bytes):
+        # value of an external text format: its text form is the string it was parsed from (assumption)
+        return v.payload
     raise Untranslatable("as_bytes of %s" % type(v).__name__)
 
 
@@ -648,11 +651,13 @@ def m_vec_decode(engine, ctx, args, callee, frame):
         i = 0
         cap = getattr(engine, "collection_cap", None)
         while True:
-            if cap is not None and not n.concrete and i >= cap:
+            if cap is not None and not n.concrete and (i >= cap or getattr(ctx, "coll_used", 0) >= getattr(engine, "collection_budget", 1 << 30)):
                 ctx.assume(b_not(int_binop("Lt", Int(i, 32), n)))
                 break
             if not ctx.branch(int_binop("Lt", Int(i, 32), n)):
                 break
+            if cap is not None and not n.concrete:
+                ctx.coll_used = getattr(ctx, "coll_used", 0) + 1
             if i >= engine.loop_bound:
                 raise BoundHit("Vec::decode loop")
             item = Cell(default_value(engine, ctx, ety, frame))
@@ -783,7 +788,9 @@ def m_poll(engine, ctx, args, callee, frame):
     if isinstance(v, Coroutine):
         if v.fn is None:
             raise Untranslatable("coroutine body not found: %s" % v.span)
-        r = engine.run_fn(v.fn, [Agg("struct", "Pin", [Cell(Ref(holder))]), cx])
+        if holder is None:
+            holder = Cell(v)
+        r = engine.run_fn(v.fn, [Agg("struct", "Pin", [Cell(Ref(holder))]), cx], v.generics)
         if isinstance(r, EnumV) and r.variant == "Pending":
             raise Untranslatable("future yielded Pending (single-poll executor)")
         return r
@@ -1564,9 +1571,17 @@ def iter_next(engine, ctx, it):
         return Ref(c) if it.by_ref else c.v
     if k == "range":
         cap = getattr(engine, "collection_cap", None)
-        if cap is not None and not it.stop.concrete and it.start.concrete and it.start.v >= cap:
-            # round-trip mode: collections are explored up to `cap` elements
-            ctx.assume(b_not(int_binop("Lt", it.start, it.stop)))
+        if cap is not None and not it.stop.concrete:
+            # round-trip mode: at most `cap` elements per collection and `collection_budget` per value
+            used = getattr(ctx, "coll_used", 0)
+            if (it.start.concrete and it.start.v >= cap) or used >= getattr(engine, "collection_budget", 1 << 30):
+                ctx.assume(b_not(int_binop("Lt", it.start, it.stop)))
+                return None
+            if ctx.branch(int_binop("Lt", it.start, it.stop)):
+                ctx.coll_used = used + 1
+                v = it.start
+                it.start = int_binop("Add", it.start, Int(1, v.bits, v.signed))
+                return v
             return None
         if ctx.branch(int_binop("Lt", it.start, it.stop)):
             v = it.start
@@ -2731,3 +2746,226 @@ def describe(v, model, depth=0):
     if isinstance(v, Opaque):
         return "Opaque(%s)" % v.name
     return repr(v)[:60]
+
+
+
+# ------------------------------------------------------------------ BinaryReader over an existing stream object
+
+@model(r"^(binary_stream::futures::)?BinaryReader::<.*>::new$")
+def m_reader_new(engine, ctx, args, callee, frame):
+    """BinaryReader::new(&mut stream, options): the model's stream object is itself the reader (shared position)"""
+    st = deref(args[0])
+    if not hasattr(st, "read_exact"):
+        raise Untranslatable("BinaryReader::new over %s" % type(st).__name__)
+    opts = args[1] if len(args) > 1 else None
+    try:
+        mb = opts.fields[1].v
+        st.max_buffer = mb.fields[0].v.v if mb.variant == "Some" else None
+    except Exception:
+        pass
+    return st
+
+
+@model(r"^(binary_stream::futures::)?stream_length::<")
+def m_stream_length(engine, ctx, args, callee, frame):
+    st = deref(args[0])
+    return future(callee, lambda: ok(st.total_len()))
+
+
+@model(r"^<(std::ops::)?Range<([ui](?:8|16|32|64|size))> as Default>::default$")
+def m_range_default(engine, ctx, args, callee, frame):
+    ty = re.search(r"Range<(\w+)>", callee).group(1)
+    bits, signed = int_type(ty)
+    return Agg("struct", "Range", [Cell(Int(0, bits, signed)), Cell(Int(0, bits, signed))])
+
+
+# ------------------------------------------------------------------ streams (event logs supplied by a harness)
+
+class StreamV:
+    """a futures::Stream over a python list of items (already wrapped in Result where the code expects it)"""
+
+    def __init__(self, items):
+        self.items = list(items)
+        self.idx = 0
+
+    def clone(self):
+        return self
+
+
+class EventLogV:
+    """harness-provided EventLog<T>: `entries` is a list of (EventRecord value, event value)"""
+
+    def __init__(self, entries):
+        self.entries = entries
+
+    def clone(self):
+        return self
+
+
+def find_stream(v):
+    for _ in range(12):
+        if isinstance(v, StreamV):
+            return v
+        if isinstance(v, Agg) and v.ty in ("Pin", "Box") and v.fields:
+            v = v.fields[0].v
+            continue
+        if isinstance(v, Ref):
+            v = v.cell.v
+            continue
+        break
+    raise Untranslatable("stream operation on %s" % type(v).__name__)
+
+
+@model(r"as (sos_core::events::)?EventLog<.*>>::(event_stream|record_stream)(::<.*>)?$")
+def m_event_stream(engine, ctx, args, callee, frame):
+    log = deref(args[0])
+    if not isinstance(log, EventLogV):
+        raise Untranslatable("event_stream on %s" % type(log).__name__)
+    rev = args[1]
+    rev = ctx.branch(rev) if not isinstance(rev, bool) else rev
+    entries = list(reversed(log.entries)) if rev else list(log.entries)
+    if "record_stream" in callee:
+        items = [ok(deep_copy(r)) for r, _ in entries]
+    else:
+        items = [ok(Agg("tuple", "tuple", [Cell(deep_copy(r)), Cell(deep_copy(e))])) for r, e in entries]
+    st = StreamV(items)
+    # async_trait method: Pin<Box<dyn Future<Output = Pin<Box<dyn Stream>>>>>
+    return pin_box(future(callee, lambda: pin_box(st)))
+
+
+@model(r"as (futures::|futures_util::)?(stream::)?StreamExt>::next$|^(futures::|futures_util::)?(stream::)?StreamExt::next::<")
+def m_stream_next(engine, ctx, args, callee, frame):
+    st = find_stream(args[0])
+
+    def run():
+        if st.idx >= len(st.items):
+            return none()
+        it = st.items[st.idx]
+        st.idx += 1
+        return some(it)
+    return future(callee, run)
+
+
+# ------------------------------------------------------------------ sos_core::{encode, decode} (thin wrappers over binary_stream)
+
+@model(r"^(sos_core::)?(encoding::)?decode::<(.*)>$")
+def m_core_decode(engine, ctx, args, callee, frame):
+    ty = re.search(r"decode::<(.*)>$", callee).group(1)
+    b = as_bytes(engine, args[0])
+
+    def run():
+        rd = Cell(ReaderV(b.arr, b.len))
+        rd.v.pos = Int(0, 64)
+        if not (b.off.concrete and b.off.v == 0):
+            rd = Cell(ReaderV(b.arr, int_binop("Add", b.off, b.len)))
+            rd.v.pos = b.off
+        val = Cell(default_value(engine, ctx, ty, frame))
+        r = run_future(engine, ctx, engine.call_named(
+            "<%s as binary_stream::futures::Decodable>::decode::<'_, '_, '_, R>" % ty, [Ref(val), Ref(rd)], frame))
+        if r.variant == "Err":
+            return err(Opaque("sos_core::Error", ("Io", r.fields[0].v)))
+        return ok(val.v)
+    return future(callee, run)
+
+
+@model(r"^(sos_core::)?(encoding::)?encode::<(.*)>$")
+def m_core_encode(engine, ctx, args, callee, frame):
+    ty = re.search(r"encode::<(.*)>$", callee).group(1)
+    v = args[0]
+
+    def run():
+        wr = Cell(WriterV())
+        r = run_future(engine, ctx, engine.call_named(
+            "<%s as binary_stream::futures::Encodable>::encode::<'_, '_, '_, W>" % ty, [v, Ref(wr)], frame))
+        if r.variant == "Err":
+            return err(Opaque("sos_core::Error", ("Io", r.fields[0].v)))
+        return ok(wr.v.bytes())
+    return future(callee, run)
+
+
+# ------------------------------------------------------------------ tracing: statically disabled
+
+@model(r"^<(tracing::|tracing_core::)?Level as PartialOrd<(tracing::|tracing_core::)?(level_filters::)?LevelFilter>>::(le|lt|ge|gt)$")
+def m_tracing_level(engine, ctx, args, callee, frame):
+    """`tracing::event!` first tests `LEVEL <= STATIC_MAX_LEVEL && LEVEL <= LevelFilter::current()`: logging is
+    modelled as disabled, which skips the rest of the macro expansion (no effect on program state)"""
+    return False
+
+
+@model(r"^(tracing::|tracing_core::)?(level_filters::)?LevelFilter::current$")
+def m_tracing_current(engine, ctx, args, callee, frame):
+    return Opaque("LevelFilter")
+
+
+# ------------------------------------------------------------------ map entry API
+
+class EntryV:
+    def __init__(self, mp, key, idx):
+        self.mp = mp
+        self.key = key
+        self.idx = idx
+
+    def clone(self):
+        return self
+
+
+@model(r"^(HashMap|IndexMap|BTreeMap)::<.*>::entry$")
+def m_map_entry(engine, ctx, args, callee, frame):
+    mp = get_map(args[0])
+    return EntryV(mp, args[1], mp.find(engine, ctx, args[1]))
+
+
+@model(r"^(std::collections::hash_map::|indexmap::map::|std::collections::btree_map::)?Entry::<.*>::(or_insert|or_default|or_insert_with)(::<.*>)?$")
+def m_entry_or_insert(engine, ctx, args, callee, frame):
+    e = args[0]
+    if e.idx is not None:
+        return Ref(e.mp.entries[e.idx][1])
+    if "or_insert_with" in callee:
+        v = engine.call_closure(args[1], [])
+    elif "or_default" in callee:
+        m = re.search(r"Entry::<'_, (.*)>::or_default", callee)
+        from .mirparse import split_top
+        v = default_value(engine, ctx, split_top(m.group(1))[1], frame)
+    else:
+        v = args[1]
+    c = Cell(v)
+    e.mp.entries.append((e.key, c))
+    return Ref(c)
+
+
+@model(r"^(std::collections::hash_map::|indexmap::map::|std::collections::btree_map::)?Entry::<.*>::and_modify::<")
+def m_entry_and_modify(engine, ctx, args, callee, frame):
+    e = args[0]
+    if e.idx is not None:
+        engine.call_closure(args[1], [Ref(e.mp.entries[e.idx][1])])
+    return e
+
+
+@model(r"^(HashSet|IndexSet|BTreeSet)::<.*>::is_subset$")
+def m_set_is_subset(engine, ctx, args, callee, frame):
+    a, b = get_map(args[0]), get_map(args[1])
+    for x in a.items:
+        if not b.contains(engine, ctx, x):
+            return False
+    return True
+
+
+@model(r"^<(time::)?OffsetDateTime as (Ord|PartialOrd)>::(cmp|partial_cmp)$")
+def m_odt_cmp(engine, ctx, args, callee, frame):
+    a, b = deref(args[0]), deref(args[1])
+    r = compare_values(engine, ctx, a.fields[0].v, b.fields[0].v)
+    if r == 0:
+        r = compare_values(engine, ctx, a.fields[1].v, b.fields[1].v)
+    o = ordering(r)
+    return some(o) if callee.endswith("partial_cmp") else o
+
+
+@model(r"^<(time::)?OffsetDateTime as PartialEq>::(eq|ne)$")
+def m_odt_eq(engine, ctx, args, callee, frame):
+    c = value_eq_cond(engine, ctx, deref(args[0]), deref(args[1]))
+    return b_not(c) if callee.endswith("ne") else c
+
+
+@model(r"^<(std::vec::)?Vec<.*> as IntoIterator>::into_iter$")
+def m_vec_into_iter(engine, ctx, args, callee, frame):
+    return make_seq_iter(engine, ctx, args[0], False)
